@@ -255,7 +255,78 @@ class Producers:
                 return p.get("ty", "")
         return None
 
+    def refine(self, env_in, cond, truth, f, env_base, stack, depth):
+        """environment under `cond == truth` for the guards the repository uses on names (reserved word / leading digit / empty), looking through
+        `!`, parentheses, and `a && b` (when true) / `a || b` (when false)"""
+        c = cond
+        while c.get("k") == "paren":
+            c = c["expr"]
+        if c.get("k") == "unary" and c.get("op") == "!":
+            return self.refine(env_in, c["expr"], not truth, f, env_base, stack, depth)
+        if c.get("k") == "binary" and ((c["op"] == "&&" and truth) or (c["op"] == "||" and not truth)):
+            e1 = self.refine(env_in, c["l"], truth, f, env_base, stack, depth)
+            return self.refine(e1, c["r"], truth, f, env_base, stack, depth)
+        g = self.guard_of(c, f)
+        if g is None:
+            return env_in
+        var, removed = g
+        cur = set(env_in[var]) if var in env_in and isinstance(env_in[var], frozenset) else set(self.expr({"k": "path", "segs": [var]}, f, env_base, stack, depth + 1))
+        out = dict(env_in)
+        if truth:
+            if removed == {"reserved"}:
+                out[var] = frozenset(["reserved"])          # one of the listed words: letters only
+            elif removed == {"leaddigit"}:
+                out[var] = frozenset(cur - {"empty", "reserved"})
+            elif removed == {"empty"}:
+                out[var] = frozenset(cur & {"empty"})
+                # `conv(y).is_empty()` holds only when y has no word characters (separators only): y keeps at most `empty`
+                vinit = self._let_init(f, var)
+                if vinit is not None and vinit.get("k") == "mcall" and vinit["method"] in ("apply_naming_convention", "apply_to_field", "apply_to_variant") and vinit["args"]:
+                    y = vinit["args"][0]
+                    while y.get("k") in ("ref", "paren"):
+                        y = y["expr"]
+                    if y.get("k") == "path" and len(y["segs"]) == 1:
+                        out[y["segs"][0]] = frozenset(set(self.expr(y, f, env_base, stack, depth + 1)) & {"empty"})
+        else:
+            out[var] = frozenset(cur - removed)
+        return out
+
+    @staticmethod
+    def _diverges(stmts):
+        if not stmts:
+            return False
+        last = stmts[-1]
+        if last.get("k") != "expr":
+            return False
+        e = last["e"]
+        return e.get("k") in ("return", "continue", "break") or (e.get("k") == "macro" and e.get("name") in ("panic", "unreachable", "unimplemented", "todo"))
+
     def block_value(self, stmts, f, env, stack, depth):
+        """class of a block used as a value: its tail expression plus every explicit `return`; statements are taken in order, so a guard clause
+        (`if guard(v) { return ..; }`) refines v for everything after it"""
+        out = set()
+        env = dict(env)
+        n = len(stmts or [])
+        for i, st in enumerate(stmts or []):
+            last = (i == n - 1)
+            if st.get("k") == "let" and st.get("init") is not None and not last:
+                out |= self.returns_of([st], f, env, stack, depth)
+                continue
+            if st.get("k") == "expr":
+                e = st["e"]
+                if last and not st.get("semi"):
+                    out |= self.expr(e, f, env, stack, depth + 1)
+                    out |= self.returns_of([st], f, env, stack, depth, skip_tail=True)
+                    continue
+                if e.get("k") == "if" and e.get("else") is None and e["cond"].get("k") != "letcond" and self._diverges(e["then"]):
+                    env_t = self.refine(env, e["cond"], True, f, env, stack, depth)
+                    out |= self.returns_of(e["then"], f, env_t, stack, depth + 1)
+                    env = self.refine(env, e["cond"], False, f, env, stack, depth)
+                    continue
+                out |= self.returns_of([st], f, env, stack, depth)
+        return frozenset(out)
+
+    def block_value_old(self, stmts, f, env, stack, depth):
         """class of a block used as a value: its tail expression plus every explicit `return` (evaluated under the bindings of the
         if-let / match arm that encloses it)"""
         out = set()
@@ -373,23 +444,12 @@ class Producers:
                     if y.get("k") == "path" and len(y["segs"]) == 1:
                         env2 = dict(env2)
                         env2[y["segs"][0]] = frozenset(set(self.expr(y, f, env, stack, depth + 1)) & {"empty"})
-            g_then = self.guard_of(c, f) if c.get("k") != "letcond" else None
-            if g_then is not None and g_then[1] == {"reserved"}:
-                # inside `if is_reserved_word(&v)` v is one of the listed words: letters only
-                env2 = dict(env2)
-                env2[g_then[0]] = frozenset(["reserved"])
-            elif g_then is not None and g_then[1] == {"leaddigit"}:
-                env2 = dict(env2)
-                env2[g_then[0]] = frozenset(set(self.expr({"k": "path", "segs": [g_then[0]]}, f, env, stack, depth + 1)) - {"empty", "reserved"})
+            if c.get("k") != "letcond":
+                env2 = self.refine(env2, c, True, f, env, stack, depth)
             out = set(self.block_value(e["then"], f, env2, stack, depth))
             if e.get("else") is not None:
                 # guard sensitivity: `if is_reserved_word(&v) {..} else ..` / `if v.is_empty() {..} else ..` refine v in the else branch
-                env3 = env
-                g = self.guard_of(c, f)
-                if g is not None:
-                    var, removed = g
-                    env3 = dict(env)
-                    env3[var] = frozenset(set(self.expr({"k": "path", "segs": [var]}, f, env, stack, depth + 1)) - removed)
+                env3 = self.refine(env, c, False, f, env, stack, depth) if c.get("k") != "letcond" else env
                 out |= self.expr(e["else"], f, env3, stack, depth + 1)
             return frozenset(out)
         if k == "match":
@@ -543,11 +603,24 @@ class Producers:
                 and re.search(r"is_ascii_digit\(\)|is_numeric\(\)|is_digit\(", expr_text(c["args"][0]["body"])):
             v = var_of(c["recv"])
             return (v, {"leaddigit"}) if v else None
+        # the word list kept in a constant table: `RESERVED.contains(&name)` / `RESERVED.contains(&name.as_str())`
+        from srclib import literal_set_guard
+        lg = literal_set_guard(self.S, c)
+        if lg is not None and JS_RESERVED <= set(lg[1]):
+            m_ = re.fullmatch(r"[&*]*(\w+)(\.(as_str|as_ref|clone|to_string)\(\))*", lg[0] or "")
+            if m_:
+                return (m_.group(1), {"reserved"})
         if c.get("k") == "call" and c["func"].get("k") == "path" and len(c["args"]) == 1:
             v = var_of(c["args"][0])
             if not v:
                 return None
             for g in [x for x in self.S.fns if x.name == c["func"]["segs"][-1] and x.body is not None]:
+                # a named wrapper around one of the guards (`fn starts_with_ascii_digit(s: &str) -> bool { s.starts_with(|c| c.is_ascii_digit()) }`)
+                prm = [p_["pat"].get("name") for p_ in g.sig.get("params", []) if p_.get("pat") and not p_.get("self")]
+                if len(prm) == 1 and g.body and len(g.body) == 1 and g.body[0].get("k") == "expr" and not g.body[0].get("semi") and g is not f:
+                    inner = self.guard_of(g.body[0]["e"], g)
+                    if inner is not None and inner[0] == prm[0]:
+                        return (v, inner[1])
                 words = set()
                 for x in walk_block(g.body):
                     if x.get("k") == "macro" and x["name"] == "matches":
@@ -555,6 +628,9 @@ class Producers:
                     if x.get("k") == "match":
                         for arm in x["arms"]:
                             words |= set(re.findall(r'"([a-z]+)"', str(arm["pat"])))
+                    lg2 = literal_set_guard(self.S, x) if x.get("k") in ("mcall", "binary") else None
+                    if lg2 is not None:
+                        words |= set(lg2[1])
                 if words:
                     missing = JS_RESERVED - words
                     if not missing:
